@@ -352,11 +352,27 @@ func (vfs *MemFS) Link(oldname, newname string) error {
 		return &os.LinkError{Op: op, Old: oldname, New: newname, Err: err}
 	}
 
+	if nParent.children[pi.Part()] != nil {
+		// newname has been created since the search.
+		err := vfs.err.FileExists
+		if vfs.OSType() == avfs.OsWindows {
+			err = avfs.ErrWinAlreadyExists
+		}
+
+		return &os.LinkError{Op: op, Old: oldname, New: newname, Err: err}
+	}
+
 	c.mu.Lock()
+	defer c.mu.Unlock()
+
+	if c.nlink == 0 {
+		// oldname has been removed since the search.
+		return &os.LinkError{Op: op, Old: oldname, New: newname, Err: vfs.err.NoSuchFile}
+	}
+
 	nParent.addChild(pi.Part(), c)
 
 	c.nlink++
-	c.mu.Unlock()
 
 	return nil
 }
@@ -682,7 +698,8 @@ func (vfs *MemFS) Remove(name string) error {
 	}
 
 	part := pi.Part()
-	if parent.children[part] == nil {
+	if parent.children[part] != child {
+		// name has been removed or replaced since the search.
 		return &fs.PathError{Op: op, Path: name, Err: vfs.err.NoSuchDir}
 	}
 
@@ -962,6 +979,11 @@ func (vfs *MemFS) Symlink(oldname, newname string) error {
 
 	if !parent.checkPermission(avfs.OpenWrite, vfs.User()) {
 		return &os.LinkError{Op: op, Old: oldname, New: newname, Err: vfs.err.PermDenied}
+	}
+
+	if parent.children[pi.Part()] != nil {
+		// newname has been created since the search.
+		return &os.LinkError{Op: op, Old: oldname, New: newname, Err: vfs.err.FileExists}
 	}
 
 	link := vfs.Clean(oldname)
